@@ -154,6 +154,27 @@ pub fn oracle(doc: &[u8], obs: &mut Obs) -> Result<(), Fail> {
         if let (Some(a), Some(b)) = (cur, sub) {
             ensure!(a == b, "C10/stepwise/dom", "stepwise get and pointer disagree at {}", path_to_string(p));
         }
+        // the same path built through the public conversions (`PointerNode::from(&str)`, `from(usize)`,
+        // the `pointer!` macro for short paths) addresses the same node
+        {
+            let ptr2: Vec<PointerNode> = p
+                .iter()
+                .map(|e| match e {
+                    PathElem::Key(k) => PointerNode::from(k.as_str()),
+                    PathElem::Idx(i) => PointerNode::from(*i),
+                })
+                .collect();
+            check_lazy("get(&[u8]) with From-built path", sonic_rs::get(doc, &ptr2), want, doc, p, true)?;
+            ensure!(dom.pointer(&ptr2).is_some() == want.is_some() && lazy_root.pointer(&ptr2).is_some() == want.is_some() && owned_root.pointer(&ptr2).is_some() == want.is_some(), "C10/from-built-path", "a path built with PointerNode::from resolves differently from the same path built from Key/Index nodes: {} on {:?}", path_to_string(p), show_bytes(doc, 300));
+            if let [PathElem::Key(a), PathElem::Key(b)] = &p[..] {
+                let via_macro = sonic_rs::pointer![a.as_str(), b.as_str()];
+                ensure!(dom.pointer(&via_macro).is_some() == want.is_some() && sonic_rs::get(doc, &via_macro).is_ok() == want.is_some(), "C10/from-built-path", "pointer![{a:?}, {b:?}] resolves differently from the Key/Key path on {:?}", show_bytes(doc, 300));
+            }
+            if let [PathElem::Key(a)] = &p[..] {
+                let via_macro = sonic_rs::pointer![a.as_str()];
+                ensure!(dom.pointer(&via_macro).is_some() == want.is_some() && sonic_rs::get(doc, &via_macro).is_ok() == want.is_some(), "C10/from-built-path", "pointer![{a:?}] resolves differently from the Key path on {:?}", show_bytes(doc, 300));
+            }
+        }
         // lazy values
         let lp = lazy_root.pointer(&ptr);
         match (want, lp) {
@@ -177,7 +198,7 @@ pub fn oracle(doc: &[u8], obs: &mut Obs) -> Result<(), Fail> {
 }
 
 pub fn subs() -> Vec<Sub<'static>> {
-    ["docs", "stress", "positional", "dup-keys", "golden", "many-small", "confusable-keys", "brackets", "large-utf8", "wide-objects"].iter().map(|n| Sub { name: n, oracle: &oracle, minimise_bytes: false }).collect()
+    ["docs", "stress", "positional", "dup-keys", "golden", "many-small", "confusable-keys", "brackets", "large-utf8", "wide-objects", "scalars"].iter().map(|n| Sub { name: n, oracle: &oracle, minimise_bytes: false }).collect()
 }
 
 fn sub(name: &str) -> Sub<'static> {
@@ -199,6 +220,22 @@ pub fn run(ctx: &Ctx) {
     ctx.search(&sub("brackets"), "bracket-stress", ctx.n(90_000, 800_000), 300, &|src: &mut Src| crate::lazyhelp::gen_bracket_stress(src));
     ctx.search(&sub("large-utf8"), "large-utf8", ctx.n(400, 6_000), 120, &|src: &mut Src| gens::gen_large_utf8(src));
     ctx.search(&sub("wide-objects"), "wide-objects", ctx.n(6_000, 80_000), 200, &|src: &mut Src| gens::gen_wide_object(src));
+    // scalar documents (the value ends where the input ends) and the empty path, on every carrier
+    {
+        let mut list: Vec<Vec<u8>> = Vec::new();
+        for tail in ["\\u00e9", "\\ud83d\\ude00", "\\n", "\\\\", "\\\"", "\\u0041", "\\/", "é", "a", ""] {
+            for pre in ["", "x", "abc def ", "0123456789012345678901234567890", "0123456789012345678901234567890123456789012345678901234567890123"] {
+                for ws in ["", " ", "\n"] {
+                    list.push(format!("{ws}\"{pre}{tail}\"").into_bytes());
+                    list.push(format!("{ws}\"{pre}{tail}\"{ws}").into_bytes());
+                }
+            }
+        }
+        for x in ["0", "-0", "1.5", "1e5", "12345678901234567890", "true", "false", "null", " null", "-1.25E-3", "123456789012345678901234567890.5"] {
+            list.push(x.as_bytes().to_vec());
+        }
+        ctx.cases(&sub("scalars"), &list);
+    }
     ctx.search(&sub("confusable-keys"), "confusable", ctx.n(60_000, 600_000), 200, &|src: &mut Src| gen_confusable_keys(src));
 
     // positional sweep: a feature at every position of a skipped sibling string
